@@ -13,6 +13,7 @@ package main
 var supportRules = map[string]func(*Report){
 	"handover-owners":               ruleHandoverOwners,
 	"errors-not-dropped":            ruleErrorsNotDropped,
+	"scan-ends-at-eof":              ruleScanEndsAtEOF,
 	"gc-single-handover":            ruleGCSingleHandover,
 	"disk-read-fresh":               ruleDiskReadFresh,
 	"oob-by-offset":                 ruleOOBByOffset,
@@ -158,7 +159,7 @@ var (
 	grpPools = []string{"flush-waits", "flush-writes", "atomic-rmw", "pool-swap", "lookup-both-pools", "published-bytes-immutable", "pool-values-fresh", "bucket-after-write", "pool-flush-complete", "flush-nowork", "put-section", "buckets-bounds"}
 	// a writer blocked by the rate limiter must be woken: "every call returns"
 	grpBackpressure = []string{"notice-owners", "notify", "notify-reset", "wait-protocol", "flusher", "lock-balanced", "lock-paths", "completion"}
-	grpOrder        = []string{"commit-order", "flush-callers", "header-persist", "header-preserved", "close-reports-errors", "rollover-switch", "flush-ack", "header-renames", "cancel-not-completion", "sticky-error", "flush-error-returned", "errors-not-dropped", "bucket-writers", "snapshot-covers", "flush-waits", "flush-writes", "commit-stops"}
+	grpOrder        = []string{"commit-order", "flush-callers", "header-persist", "header-preserved", "close-reports-errors", "rollover-switch", "flush-ack", "header-renames", "cancel-not-completion", "sticky-error", "flush-error-returned", "errors-not-dropped", "bucket-writers", "snapshot-covers", "flush-waits", "flush-writes", "commit-stops", "scan-ends-at-eof"}
 	grpFormat       = []string{"layout", "predict", "pos-codec", "rollover-siblings", "strip-whole-bytes", "scan-framing", "pos-width", "location-after-rollover", "open-length", "index-open-limit", "append-flags", "limit-component", "data-file-writers", "completion"}
 	grpCache        = []string{"fc-close-guard", "fc-identity", "fc-refs", "fc-removed-writes", "fc-shrink", "fc-locked", "fc-client", "fc-unknown-closed", "fc-drop-all", "fc-list-nonnil", "fc-open-returns", "file-leak"}
 )
